@@ -407,6 +407,8 @@ def install(it):
                 return SV(coerce(x.z, R))
             if isinstance(x, CV):
                 return x.re
+            if type(x).__name__ == "XV":
+                return x        # a float that may be NaN stays what it is
             if isinstance(x, str):
                 try:
                     return float(x)
